@@ -405,7 +405,7 @@ pub fn generate(rng: &mut Rng, fault_free: bool) -> K17 {
         (0..1 + rng.below(4))
             .map(|_| {
                 let (w, h) = if rng.chance(0.6) { (cols.saturating_sub(1 + rng.below(30) as u16).max(1), rows.saturating_sub(1 + rng.below(12) as u16).max(1)) } else { *rng.pick(&SIZES) };
-                (rng.below(400), w, h)
+                (rng.below(160), w, h)
             })
             .collect()
     } else {
